@@ -372,7 +372,7 @@ func c16Grammar(t *rapid.T, parser string) []byte {
 			}
 		}
 	case "targets-json":
-		keys := []string{"method", "url", "body", "header", "header", "header", "Method", "headers", "x", ""}
+		keys := []string{"method", "url", "body", "header", "header", "header", "header", "Method", "headers", "x", ""}
 		for i, n := 0, rapid.IntRange(1, 3).Draw(t, "nrec"); i < n; i++ {
 			b.WriteString(rapid.SampledFrom([]string{"{", "{", "{", " {", "[", "\ufeff{"}).Draw(t, fmt.Sprintf("open%d", i)))
 			if rapid.IntRange(0, 2).Draw(t, fmt.Sprintf("wellformed%d", i)) != 0 {
@@ -383,6 +383,19 @@ func c16Grammar(t *rapid.T, parser string) []byte {
 					b.WriteString("}\n")
 					continue
 				}
+			}
+			if rapid.IntRange(0, 3).Draw(t, fmt.Sprintf("repeated%d", i)) == 0 {
+				// one member several times over (legal JSON): each time a well-formed value of the member's own type
+				k := rapid.SampledFrom([]string{"header", "header", "body", "method", "url"}).Draw(t, fmt.Sprintf("rk%d", i))
+				vals := map[string][]string{"header": {`{}`, `{}`, `null`, `{"K":["v"]}`, `{"K":null}`, `{"K":[]}`, `{"L":["w","x"]}`}, "body": {`""`, `null`, `"DQo="`}, "method": {`"GET"`, `""`, `"POST"`}, "url": {`"http://h.test/"`, `""`}}[k]
+				for f, nf := 0, rapid.IntRange(2, 4).Draw(t, fmt.Sprintf("rn%d", i)); f < nf; f++ {
+					if f > 0 {
+						b.WriteString(",")
+					}
+					fmt.Fprintf(&b, "%q:%s", k, rapid.SampledFrom(vals).Draw(t, fmt.Sprintf("rv%d.%d", i, f)))
+				}
+				b.WriteString("}\n")
+				continue
 			}
 			for f, nf := 0, rapid.IntRange(1, 6).Draw(t, fmt.Sprintf("nf%d", i)); f < nf; f++ {
 				if f > 0 {
@@ -504,7 +517,7 @@ func TestC16Parsers(t *testing.T) {
 	vh.Regress(t, "C16")
 	vh.ShrinkTime("5s")
 	vh.Check(t, 2500, 60000, func(t *rapid.T) {
-		c := c16Case{Parser: rapid.SampledFrom([]string{"results", "results", "targets-http", "targets-http", "targets-json", "buckets"}).Draw(t, "parser")}
+		c := c16Case{Parser: rapid.SampledFrom([]string{"results", "results", "targets-http", "targets-http", "targets-json", "targets-json", "buckets"}).Draw(t, "parser")}
 		kind := "mutated"
 		switch rapid.IntRange(0, 9).Draw(t, "kind") {
 		case 2, 3, 4:
